@@ -131,7 +131,9 @@ ClearOutcomes(c) ==
 (* this object cannot know, its in-memory front keeps serving what it holds (a deliberate property of the code: the   *)
 (* front is only coherent with the directory as long as this object is the one that changes it).  Its own clear()      *)
 (* afterwards still empties it completely.                                                                            *)
-WipeOutcomes(c) == {<<[c EXCEPT !.files = <<>>, !.val = Empty], NoneV>>}
+(* (An object that notices and drops its front is explained as well: the property does not ask for the stale front.)   *)
+WipeOutcomes(c) == LET c1 == [c EXCEPT !.files = <<>>, !.val = Empty]
+                   IN  {<<c1, NoneV>>, <<[c1 EXCEPT !.front = LruNew], NoneV>>}
 
 (* re-open a DiskCache on the same directory with another max_size (a new object: empty front) *)
 ReopenOutcomes(c, max, lsize) == {<<[c EXCEPT !.max = max, !.lsize = lsize, !.front = LruNew], NoneV>>}
